@@ -70,6 +70,15 @@ class GhostSucc(SuccTab):
         # ghosts are not enumerated: iteration over the table is outside M mode
 
     def __setitem__(self, k, t):
+        if isinstance(k, int) and k == 1:
+            # the terminal moves when a variable is declared
+            self.st.LV = z3.Store(self.st.LV, z3.IntVal(1), _z(t[0]))
+            return
+        raise engine.OutOfBound('node table written in contract-stub mode')
+
+    def setdefault(self, k, t):
+        if isinstance(k, int) and k == 1:
+            return self._tuple(z3.IntVal(1))
         raise engine.OutOfBound('node table written in contract-stub mode')
 
     def pop(self, k, *d):
